@@ -271,8 +271,9 @@ class Check:
             wall_s=round(time.time() - self.t0, 2),
             violations=sum(1 for l in lines if l.startswith("VIOLATION")),
         )
-        os.makedirs(os.path.join(VERIF, "evidence"), exist_ok=True)
-        json.dump(ev, open(os.path.join(VERIF, "evidence", f"{self.pid}.json"), "w"), indent=1, default=str)
+        evdir = os.environ.get("NUSYM_EVIDENCE_DIR") or os.path.join(VERIF, "evidence")  # the env var is a development aid (seeded runs)
+        os.makedirs(evdir, exist_ok=True)
+        json.dump(ev, open(os.path.join(evdir, f"{self.pid}.json"), "w"), indent=1, default=str)
 
 
 def _z3v():
